@@ -60,6 +60,8 @@ def shift1d(ctx, rng, idx):
     r1 = [np.roll(x, k) for x in disc.rhs(f)]; r2 = disc2.rhs(f2)
     if not (_finite(r1) and _finite(r2)):
         raise core.Skip("nonfinite rhs")
+    if not (gen.faces_admissible(disc, spec.mname) and gen.faces_admissible(disc2, spec.mname)):
+        raise core.Skip("reconstructed face states not admissible")
     fs = _fluxscale(spec.mname, model, spec.prim)
     fs = [max(a_, float(np.max(np.abs(np.asarray(disc.flux[i], float))))) for i, a_ in enumerate(fs)]
     dx = mesh.length / n
